@@ -563,6 +563,47 @@ def oracle_border_chunking(ck, rng):
                                      "multi_chunk": bool(ch and tuple(ch) != tomo.shape)}, oracle="border_chunking")
 
 
+def oracle_task_lists_together(ck, rng):
+    """several task lists evaluated in one graph (several templates scored at once, several anonymous functions applied at once, templates x
+    rotations in one landscape): every list keeps its own results, equal to those of the same list evaluated alone, and the lazily declared
+    landscape shape is the computed one"""
+    import dask
+    from acryo import SubtomogramLoader, Molecules
+    from acryo.alignment import ZNCCAlignment
+    from scipy.spatial.transform import Rotation
+    from scipy import ndimage as ndi
+    tomo = ndi.gaussian_filter(rng.normal(size=(24, 24, 24)), 1.0).astype(np.float32)
+    t0 = ndi.gaussian_filter(rng.normal(size=(7, 7, 7)), 1.0).astype(np.float32)
+    t1 = ndi.gaussian_filter(rng.normal(size=(7, 7, 7)), 1.0).astype(np.float32)
+    n = 5
+    mol = Molecules(rng.uniform(8, 15, size=(n, 3)), Rotation.random(n, random_state=int(rng.integers(0, 2**31))))
+    ld = SubtomogramLoader(tomo, mol, order=1, output_shape=(7, 7, 7))
+    for sched in ("synchronous", "threads"):
+        ck.oracle_count("task_lists_together", 1, 1)
+        bad = []
+        try:
+            with dask.config.set(scheduler=sched):
+                both = [np.asarray(x) for x in ld.score([t0, t1])]
+                alone = [np.asarray(ld.score([t0])[0]), np.asarray(ld.score([t1])[0])]
+                if not (np.allclose(both[0], alone[0], atol=1e-6) and np.allclose(both[1], alone[1], atol=1e-6)):
+                    bad.append("score([t0, t1]) differs from score([t0]) and score([t1]) evaluated alone")
+                sub = np.asarray(ld.asnumpy()).reshape(n, -1)
+                ap = ld.apply([lambda a: float(a.max()), lambda a: float(a.min())], schema=["hi", "lo"]).to_numpy()
+                if not np.allclose(ap, np.stack([sub.max(axis=1), sub.min(axis=1)], axis=1), atol=1e-5):
+                    bad.append("apply with two anonymous functions: the columns are not (max, min) of each sub-volume")
+                for tm, rots in (([t0, t1], ((0, 0), (0, 0), (10, 10))), (t0, ((10, 10), (0, 0), (0, 0))), ([t0, t1], None)):
+                    kw = {} if rots is None else {"rotations": rots}
+                    lazy = ld.construct_landscape(tm, max_shifts=2.0, upsample=1, alignment_model=ZNCCAlignment, **kw)
+                    comp = np.asarray(lazy.compute())
+                    if tuple(lazy.shape) != comp.shape:
+                        bad.append(f"construct_landscape ({'2 templates' if isinstance(tm, list) else '1 template'}, rotations {rots}) declares shape {tuple(lazy.shape)} and computes {comp.shape}")
+        except Exception as e:  # noqa
+            bad.append(f"raised {type(e).__name__}: {e}")
+        if bad:
+            ck.violation(what=f"scheduler {sched}: " + "; ".join(bad[:3]), inp={"scheduler": sched, "n": n}, key={"site": "task-lists-together", "symptom": bad[0].split(" ")[0]},
+                         oracle="task_lists_together")
+
+
 def halves_partition(stack, hs):
     """the two half maps are plain means over two disjoint, jointly exhaustive, non-empty parts of the given sub-volumes (membership
     recovered by least squares: weight 1/k on the k members of a half, 0 elsewhere)"""
@@ -641,6 +682,7 @@ def run(ck: common.Check):
     oracle_imread_and_mock(ck, np.random.default_rng(ck.seed + 10101))
     oracle_border_chunking(ck, np.random.default_rng(ck.seed + 1001))
     oracle_stack_chunk_size(ck, np.random.default_rng(ck.seed + 1002))
+    oracle_task_lists_together(ck, np.random.default_rng(ck.seed + 1003))
 
 
 def replay_file(data):
